@@ -15,6 +15,8 @@ import Qryn.Proofs.SameShape
 import Qryn.Proofs.SameShapeMetric
 import Qryn.Proofs.TempoClosed
 import Qryn.Proofs.RawSqlCensus
+import Qryn.Proofs.PlanClosedMetricX
+import Qryn.Proofs.SameShapeMetricX
 /-! # C10 — request strings can never change the structure of SQL sent to ClickHouse
 
 Property theorems only. Model: `Qryn.Sql.quote` (= `StringVal.String`, table regenerated from
@@ -485,6 +487,37 @@ theorem same_shape_values (c : LogQL.Ctx) (key key' : Bytes) (ms ms' : List LogQ
   ⟨same_shape_same_structure _ _ (LogQL.wf_planValues c key _ ht) (LogQL.wf_planValues c key' _ ht) (LogQL.planValues_sameShape c key key' ms ms' h).1,
    same_shape_same_structure _ _ (LogQL.wf_planValues c key _ ht) (LogQL.wf_planValues c key' _ ht) (LogQL.planValues_sameShape c key key' ms ms' h).2⟩
 
+/-! ## The labelled metric path: `| json`, `| regexp`, `| drop` inside a metric selector, `quantile_over_time` -/
+
+/-- **plan_closed_metricx.** EVERY plan of C08's extended metric planner model `planMetricX` (range aggregations, unwrap
+    functions and `quantile_over_time` over selectors that carry the SQL-side stages `| json l="path",…`, `| regexp`, `| drop`
+    and line / label filters after them — `planSpl` with `labelsJoinIdx != -1`: the samples joined with their series' labels,
+    one SELECT per run of stages (`MainRenewPlanner`), `LRAPlanner.WithLabels`, `ByWithoutPlanner.processSimple`,
+    `QuantilePlanner`, `AggOpPlanner` with labels, topk, comparisons, step fix, finalizer): for every context with closed table
+    names the statement is well formed for its leaves and its token structure does not depend on them. Leaves: everything
+    `plan_closed_metric` and `plan_closed_logx` list — matcher names/values, needles, regexes, label-filter values, json labels
+    and path name parts, regexp group names and pattern, drop names and values, the names of label filters after a parser /
+    drop, by/without labels, the unwrap label. The quantile parameter is a number (`%f`: digits and a point for every value).
+    Hypothesis on request text: only the names of label filters BEFORE the first parser / drop are `LabelName` tokens. -/
+theorem plan_closed_metricx (c : LogQL.MCtx) (q : LogQL.MetricQueryX) (h : LogQL.MAtomsOK c) (hn : LogQL.MetricXNamesOK q) :
+    safeSegs .normal (segsSel (LogQL.planMetricX c q)) = true ∧
+    kinds (renderSel (LogQL.planMetricX c q)) = kinds (renderSegs ((segsSel (LogQL.planMetricX c q)).map Seg.shape)) :=
+  have hw := LogQL.wf_planMetricX c q h hn
+  ⟨closed_fragments_partial _ hw, render_structure_invariant_sel _ hw⟩
+
+/-- **same_shape_metricx.** Two metric queries of the labelled path with equal SKELETONS (`sameShapeMX`: everything equal but the
+    contents of string leaves — kept are operators, stage kinds and order, and/or trees, label-filter names and numbers, the
+    literal-regex flag, whether a needle is empty, json path part kinds and index parts, the numbers of json parameters / regexp
+    groups / drop entries, whether a drop entry has a value, whether the unwrap label is `_entry`, functions, durations, the
+    quantile parameter, `k`, comparison literals, the number of by/without labels) are planned, in the same context, to
+    statements with the same token structure. Proof: `shapeS (planMetricX c q) = shapeS (planMetricX c q.skel)`, pushed through
+    `chExpr`, `runSel`, `groupRuns`, `planRunsM`, `sourceX`, `quantileSel` and the matrix builders. -/
+theorem same_shape_metricx (c : LogQL.MCtx) (q1 q2 : LogQL.MetricQueryX) (h : LogQL.MAtomsOK c) (hn1 : LogQL.MetricXNamesOK q1)
+    (hn2 : LogQL.MetricXNamesOK q2) (hs : LogQL.sameShapeMX q1 q2) :
+    kinds (renderSel (LogQL.planMetricX c q1)) = kinds (renderSel (LogQL.planMetricX c q2)) :=
+  same_shape_same_structure _ _ (LogQL.wf_planMetricX c q1 h hn1) (LogQL.wf_planMetricX c q2 h hn2)
+    (LogQL.planMetricX_sameShape c q1 q2 hs)
+
 /-! ## Legacy Tempo: `?tags=` search, trace by id, tag values -/
 
 /-- **tempo_search_closed.** The statement `TempoService.Search` sends (`GetTracesQuery` around `SQLIndexQuery.String`: one
@@ -733,6 +766,27 @@ private theorem exNames' : LogQL.MetricNamesOK exMetric' := by
   · show LogQL.LabelClass "a"
     unfold LogQL.LabelClass; decide +kernel
 example := same_shape_metric exMCtx exMetric exMetric' ⟨exTablesCluster, by decide +kernel⟩ exNames exNames' (by decide +kernel)
+-- `plan_closed_metricx` / `same_shape_metricx`: topk over a grouped sum over a quantile over a selector with a json parameter,
+-- a regexp, a drop and filters after them, hostile leaves; and a copy with every string leaf replaced
+private def exRangeX : LogQL.RangeAggX :=
+  ⟨.quantile ⟨0, [9, 9]⟩ "l'--", exQuery,
+   [.ch (.json [([120, 39], [.key [48, 39, 41, 45, 45], .idx 1])]), .fl (.label (.str "x" .re [39, 41])),
+    .ch (.regexp [[103, 39], []] [40, 39, 92, 41]), .ch (.drop [([97, 39], []), ([98], [39, 59, 45, 45])]),
+    .fl (.line ⟨.contains, [39, 92], none⟩)],
+   60000000000, none, some ⟨false, ["';"]⟩, some ⟨.gt, ⟨1, [5]⟩⟩⟩
+private def exRangeX' : LogQL.RangeAggX :=
+  ⟨.quantile ⟨0, [9, 9]⟩ "z", exMetric'.rangeAgg.sel,
+   [.ch (.json [([], [.key [], .idx 1])]), .fl (.label (.str "x" .re [97])),
+    .ch (.regexp [[], [104]] []), .ch (.drop [([], []), ([99, 99], [100])]),
+    .fl (.line ⟨.contains, [97], none⟩)],
+   60000000000, none, some ⟨false, ["k"]⟩, some ⟨.gt, ⟨1, [5]⟩⟩⟩
+private def exMetricX : LogQL.MetricQueryX := ⟨exRangeX, some ⟨.sum, some ⟨true, ["a'b", "x\\"]⟩, none, none⟩, some ⟨true, 3, some ⟨.le, ⟨100, []⟩⟩⟩⟩
+private def exMetricX' : LogQL.MetricQueryX := ⟨exRangeX', some ⟨.sum, some ⟨true, ["q", ""]⟩, none, none⟩, some ⟨true, 3, some ⟨.le, ⟨100, []⟩⟩⟩⟩
+example := plan_closed_metricx exMCtx exMetricX ⟨exTablesCluster, by decide +kernel⟩ exNames
+example : LogQL.sameShapeMX exMetricX exMetricX' := by decide +kernel
+example := same_shape_metricx exMCtx exMetricX exMetricX' ⟨exTablesCluster, by decide +kernel⟩ exNames exNames' (by decide +kernel)
+-- one more group in the regexp, or a drop entry that gains a value: not the same shape
+example : ¬ LogQL.sameShapeMX exMetricX ⟨{ exRangeX with post := [.ch (.regexp [[103]] [40, 41])] }, none, none⟩ := by decide +kernel
 -- Tempo: hostile tag names / values under all four conditions, every optional clause present
 private def exIdx : TempoSegs.Idx := ⟨b "`qryn`.tempo_traces_attrs_gin", 1700000000000000000, 1700003600000000000, 1000000, 10000000000, 20, true⟩
 private def exSearch : TempoSegs.Search := ⟨b "tempo_traces", 20, 1700000000000000000, 1700003600000000000, 1000000, 10000000000⟩
